@@ -19,7 +19,7 @@ from harness import histrun
 from harness import k1trace
 
 # bits of the code the Coq side returns for a trace (0 = everything agrees)
-B_ACCEPT, B_UNDO_INC, B_STORED, B_UNDO, B_STATE, B_SC1, B_SC2, B_MUNDO, B_MREDO, B_NOTHM = 1, 2, 4, 8, 16, 32, 64, 128, 256, 512
+B_ACCEPT, B_UNDO_INC, B_STORED, B_UNDO, B_STATE, B_SC1, B_SC2, B_MUNDO, B_MREDO, B_NOTHM, B_LAWS = 1, 2, 4, 8, 16, 32, 64, 128, 256, 512, 1024
 CODE_DEF = '''
 Definition b2z (b : bool) (k : Z) : Z := if b then 0 else k.
 Definition trace_code (tr : trace TT) : Z :=
@@ -27,7 +27,8 @@ Definition trace_code (tr : trace TT) : Z :=
   let ur := undo_redo_code TT tr in
   b2z (w_accepted w) 1 + b2z (w_undo_inc w) 2 + b2z (w_stored w) 4 + b2z (w_undo w) 8 + b2z (w_state w) 16 +
   b2z (w_sc1 w) 32 + b2z (w_sc2 w) 64 + ur +
-  b2z (bundle_ok2 OO (state_of_snapshot TT (tr_start tr)) (map fst (tr_events tr))) 512.
+  b2z (bundle_ok2 OO (state_of_snapshot TT (tr_start tr)) (map fst (tr_events tr))) 512 +
+  b2z (laws_monitor TT tr) 1024.
 '''
 
 WEIGHTS = {'rencol': 6, 'rmcol': 6, 'rmtable': 3, 'rentable': 4, 'addformula': 8, 'modtype': 5, 'modformula': 5,
